@@ -51,6 +51,20 @@ type T struct {
 	Components   []T    `json:"components,omitempty"`
 }
 
+// MarshalJSON keeps the difference between a tuple whose member list is PRESENT BUT EMPTY
+// ("components": []) and one whose member list is absent: both are member-less tuples, and
+// both spellings occur in ABI documents.
+func (t T) MarshalJSON() ([]byte, error) {
+	type plain T
+	if t.Components != nil && len(t.Components) == 0 {
+		return json.Marshal(struct {
+			plain
+			Components []T `json:"components"`
+		}{plain(t), []T{}})
+	}
+	return json.Marshal(plain(t))
+}
+
 type E struct {
 	Type            string `json:"type"`
 	Name            string `json:"name,omitempty"`
@@ -722,14 +736,33 @@ func genDims(rt *rapid.T, label string, tuple bool) string {
 }
 
 func genParam(rt *rapid.T, label string, name string, depth int) T {
+	return genParamOpt(rt, label, name, depth, false)
+}
+
+// genParamOpt: with memberless set, about one tuple in twelve has NO members (an empty
+// struct: "tuple", "tuple[]", "tuple[3][]" with an absent or an empty component list) - at
+// the top level, inside other tuples and under array dimensions alike.  Such a tuple can
+// sit at depth 0 as well (it needs no further nesting budget).
+func genParamOpt(rt *rapid.T, label string, name string, depth int, memberless bool) T {
 	t := T{Name: name}
+	if memberless && rapid.IntRange(0, 29).Draw(rt, label+".memberless") == 0 {
+		dims := genDims(rt, label, true)
+		t.Type = "tuple" + dims
+		if rapid.Bool().Draw(rt, label+".emptylist") {
+			t.Components = []T{}
+		}
+		if rapid.Bool().Draw(rt, label+".it") {
+			t.InternalType = "struct Empty" + dims
+		}
+		return t
+	}
 	if depth > 0 && rapid.IntRange(0, 9).Draw(rt, label+".tuple") < 4 {
 		dims := genDims(rt, label, true)
 		t.Type = "tuple" + dims
 		n := rapid.IntRange(1, 4).Draw(rt, label+".members")
 		names := distinctNames(rt, label+".m", n, false)
 		for i, mn := range names {
-			t.Components = append(t.Components, genParam(rt, fmt.Sprintf("%s.%d", label, i), mn, depth-1))
+			t.Components = append(t.Components, genParamOpt(rt, fmt.Sprintf("%s.%d", label, i), mn, depth-1, memberless))
 		}
 		if rapid.Bool().Draw(rt, label+".it") {
 			t.InternalType = "struct " + rapid.SampledFrom([]string{"", "Lib.", "Outer.Inner."}).Draw(rt, label+".scope") + "S" + strings.ToUpper(name) + dims
